@@ -218,7 +218,7 @@ def run_case(case):
 
 
 def gen_cases(tier, seed):
-    n = 96 if tier == "quick" else 900
+    n = 96 if tier == "quick" else 2700
     cases = []
     for i in range(n):
         rng = rng_for(seed, "c07", i)
